@@ -7,6 +7,11 @@ HOOK_COMMITS = subprocess.run(
     capture_output=True, text=True).stdout.strip().splitlines()
 
 CHECKS = {
+ "C20": dict(
+   text="Seeded deterministic simulation of the real StateChangeWatcher goroutine on the fake clock with generated settings and scripted health observation sequences (steady, single change, flapping below/above the thresholds, random persistence). Trace oracle over the recorded observations and reactions: R1 reactions alternate starting with unhealthy, R2 each reaction is backed by >= N consecutive equal observations spanning >= the stable period, R3 no reaction inside the cool-down after an unhealthy reaction, R4 flapping never reacts (follows from R2 on every reaction). Sampling, not proof.",
+   design_ref="DESIGN.md section 4 C20",
+   note="Trusted: synctest fake clock; the predicate script and the recorded callbacks; only-if oracle (a missing reaction is never flagged); the real revert reactions are not wired here.",
+   technique="deterministic simulation: seeded observation scripts and settings on a fake clock with a trace oracle over observations and reactions"),
  "C11": dict(
    text="Seeded deterministic simulation of the real TxnPoliciesAccessor with its two MapVacuum goroutines on the fake clock, fed through the real policies file loader and a simulated HAProxy admin API: histories of transaction request/response lookups, apply-policies, apply with HAProxy failure, fail-safe reverts, clock targets on vacuum ticks and around the 30 s retention, concurrent groups interleaved at instrumented lock sites. Oracle: version table + pin per transaction: R1 response sees the request's version inside the retention, R2 a new transaction after a successful apply sees the newest version, R3 a failed apply changes nothing, R4 never empty policies. Sampling, not proof.",
    design_ref="DESIGN.md section 4 C11",
